@@ -489,6 +489,9 @@ def copy_array(x, xp: Any = None) -> Array:
 
 def effective_sample_size(log_w: Array) -> float:
     xp = array_namespace(log_w)
+    # Shift by the maximum first: the difference of two logsumexp values of
+    # magnitude |log_w| loses the ESS in rounding (float32 in particular)
+    log_w = log_w - xp.max(log_w)
     return xp.exp(xp.asarray(logsumexp(log_w) * 2 - logsumexp(log_w * 2)))
 
 
